@@ -35,7 +35,7 @@ from lib import vcore
 
 LIMIT = 2 ** 50
 HEADER = """From Coq Require Import ZArith List Bool.
-From QV Require Import Base.Mat Base.Zi C01.Model C01.Spec.
+From QV Require Import Base.Mat Base.Zi C01.Model C01.ModelExtra C01.Spec.
 Import ListNotations.
 Local Open Scope Z_scope.
 Definition veqb (u v : list Zi) : bool :=
@@ -47,6 +47,9 @@ Definition leqb (u v : list nat) : bool :=
 Definition seqb (s t : estring) : bool :=
   leqb (fst (fst s)) (fst (fst t)) && leqb (snd (fst s)) (snd (fst t)) && leqb (snd s) (snd t).
 Definition G := gate (T:=Zi).
+Definition osv (o : option (list Zi)) (ex : list Zi) : bool := match o with Some v => veqb v ex | None => false end.
+Definition odm (o : option (list (list Zi))) (ex : list (list Zi)) : bool := match o with Some m => meqb m ex | None => false end.
+Definition onone {A} (o : option A) : bool := match o with Some _ => false | None => true end.
 """
 
 # exact named gates: name -> (number of built-in controls, base matrix on the targets)
